@@ -113,6 +113,38 @@ func descHosts() []descHost {
 		"TAG @h\n", "  TAG @sub\n", "", "URL /t\n  GET\n    200 any\n", "PUT /t\n")
 	alt("RPC", "JSIGHT 0.3\nURL /r\n  Protocol json-rpc-2.0\n  Method m\n", "  ", func(c *jsonx.V) *jsonx.V { return first(c, "interactions").Get("description") },
 		"    Result\n      {}\n", "  Method n\n", "", "TYPE @after any\n", "URL /r2\n  Protocol json-rpc-2.0\n  Method k\n")
+	// the same, derived from the keyword table instead of written by hand: after the description
+	// comes a minimal directive of EVERY kind (the token texts of C06), with the declarations it
+	// needs at the end of the document; kept when the document without the Description is accepted
+	// (so the only thing the Description adds is itself)
+	tails := []string{"TAG @g\nMACRO @m\n(\n  200 any\n)\n", "TAG @g\n", "MACRO @m\n(\n  200 any\n)\n", ""}
+	gen := func(name, prefix, descIndent string, get func(c *jsonx.V) *jsonx.V) {
+		for _, t := range ctxAlphabet() {
+			if t.name == "JSIGHT" || t.name == "Description" || t.name == "(" || t.name == ")" {
+				continue
+			}
+			for _, ind := range []string{descIndent + "  ", ""} {
+				line := indentBlock(t.text+"\n", ind)
+				found := false
+				for _, tail := range tails {
+					term := line + tail
+					if run1(prefix + term).OK() {
+						hosts = append(hosts, descHost{fmt.Sprintf("%s/then-%s@%d", name, t.name, len(ind)), func(d string) string { return prefix + indentBlock(d, descIndent) + term }, get, true})
+						found = true
+						break
+					}
+				}
+				if found {
+					break // indentation does not nest; one spelling of the next line per kind
+				}
+			}
+		}
+	}
+	gen("HTTP-in-URL", "JSIGHT 0.3\nURL /h\n  GET\n", "  ", httpGet)
+	gen("HTTP-top", "JSIGHT 0.3\nGET /h\n", "", httpGet)
+	gen("INFO", "JSIGHT 0.3\nINFO\n  Title \"T\"\n", "", func(c *jsonx.V) *jsonx.V { return c.Path("info", "description") })
+	gen("TAG", "JSIGHT 0.3\nTAG @g\n", "", func(c *jsonx.V) *jsonx.V { return c.Path("tags", "@g", "description") })
+	gen("RPC", "JSIGHT 0.3\nURL /r\n  Protocol json-rpc-2.0\n  Method m\n", "  ", func(c *jsonx.V) *jsonx.V { return first(c, "interactions").Get("description") })
 	return hosts
 }
 
